@@ -37,7 +37,9 @@ QUERY_TIMEOUT_MS = {"quick": 60000, "thorough": 240000}
 
 CONFIGS_QUICK = [
     # model, layout, segment, weighting, k, vary
-    ("hertz_cone", "4+2", 0, "on", "sym", ["E", "contact_point"]),
+    # (symbolic k with weighting: thorough tier, and C11's glue task in its quick
+    # tier; one of its residual queries needs 15-60 s of nlsat)
+    ("hertz_cone", "4+2", 0, "on", "half", ["E", "contact_point"]),
     ("hertz_para", "4+2", 0, "off", "half", ["E", "contact_point"]),
     ("hertz_para", "3+3", 1, "on", "one", ["E"]),
     # one varied parameter on five points: successful fits on a strict subset
@@ -45,6 +47,7 @@ CONFIGS_QUICK = [
     ("hertz_para", "5+3", 0, "off", "one", ["E"]),
 ]
 CONFIGS_THOROUGH = CONFIGS_QUICK + [
+    ("hertz_cone", "4+2", 0, "on", "sym", ["E", "contact_point"]),
     ("hertz_para", "4+2", 0, "on", "sym", ["E", "contact_point"]),
     ("hertz_pyr3s", "3+3", 0, "on", "sym", ["E"]),
     ("sneddon_spher_approx", "3+3", 0, "off", "one", ["E"]),
@@ -102,6 +105,10 @@ def t_multipass_failure(model_key, layout):
     return {"outcome": "later pass failed", "optimiser_calls": len(symlmfit.CALLS)}
 
 
+def _not(b):
+    return (not b) if isinstance(b, bool) else (b == False)   # noqa: E712 - symbolic negation
+
+
 def t_fit(model_key, layout, segment, weighting, kmode, vary):
     global LAST_WORLD
     w, idnt, x, y, seg, P, init = fc.setup(layout, model_key, vary)
@@ -147,8 +154,8 @@ def t_fit(model_key, layout, segment, weighting, kmode, vary):
         prove("fail:no-optimisation", len(symlmfit.CALLS) == 0)
         return {"outcome": "too few points", "decisions": len(core.cur().decisions)}
     witness("success")
-    if any(seg[i] == segment and rng[i] is False for i in range(n)):
-        witness("strict-subset")
+    witness("strict-subset", core.any_of([_not(rng[i])
+                                          for i in range(n) if seg[i] == segment]))
     prove("ok:guard", npv < cnt - 1)
     prove("ok:one-optimisation", len(symlmfit.CALLS) == 1)
     call = symlmfit.CALLS[-1]
@@ -275,7 +282,7 @@ def replay(task, ob, model):
     y = [g(f"y{i}") for i in range(n)]
     k = {"sym": g("k", 1.0), "half": 0.5, "one": 1.0}[a["kmode"]]
     wcp = g("weight_cp", 1e-6) if a["weighting"] == "on" else 0
-    opt = {kk.split("_", 2)[2]: float(v) for kk, v in model.items() if kk.startswith("opt_")}
+    opt = {kk.split("_", 2)[2].split("!")[0]: float(v) for kk, v in model.items() if kk.startswith("opt_")}
     init = {kk[5:]: float(v) for kk, v in model.items() if kk.startswith("init_")}
     return common.REPLAY_HEAD + f'''
 import specs, lmfit, nanite, copy
